@@ -1,0 +1,30 @@
+//go:build verif
+
+package linear
+
+// Contracts for the verification machinery in /verif (vcgo). Comment-only: this file adds
+// no code and is compiled only with -tags verif.
+
+//@ func NormalisedTo8Bit
+//@   mode ieee
+//@   ensures [C02,C14] clamp-lo: v <= 0 ==> result == 0
+//@   ensures [C02,C14] clamp-hi: v >= 1 ==> result == 255
+//@   ensures [C02,C14] round: v > 0 && v < 1 ==> abs(float64(result) - float64(v)*255) <= 0.5 + 0x1p-16
+//@   ensures [C02] nan-total: isnan(v) ==> result == 0
+//@ lemma [C02] q8-mono mode=ieee (a float32, b float32): a <= b ==> NormalisedTo8Bit(a) <= NormalisedTo8Bit(b)
+
+//@ func NormalisedTo9Bit
+//@   mode ieee
+//@   ensures [C02] clamp-lo: v <= 0 ==> result == 0
+//@   ensures [C02] clamp-hi: v >= 1 ==> result == 511
+//@   ensures [C02] round: v > 0 && v < 1 ==> result <= 511 && abs(float64(result) - float64(v)*511) <= 0.5 + 0x1p-15
+//@   ensures [C02] nan-total: isnan(v) ==> result == 0
+//@ lemma [C02] q9-mono mode=ieee (a float32, b float32): a <= b ==> NormalisedTo9Bit(a) <= NormalisedTo9Bit(b)
+
+//@ func NormalisedTo16Bit
+//@   mode ieee
+//@   ensures [C02,C14] clamp-lo: v <= 0 ==> result == 0
+//@   ensures [C02,C14] clamp-hi: v >= 1 ==> result == 65535
+//@   ensures [C02,C14] round: v > 0 && v < 1 ==> abs(float64(result) - float64(v)*65535) <= 0.5 + 0x1p-8
+//@   ensures [C02] nan-total: isnan(v) ==> result == 0
+//@ lemma [C02] q16-mono mode=rnd (a float32, b float32): a <= b ==> NormalisedTo16Bit(a) <= NormalisedTo16Bit(b)
